@@ -52,6 +52,17 @@ ASSUMPTIONS = [
     "numerical cells are finite or missing: the property's quantifier says 'rows with missing values'; an infinite "
     "cell makes MLP / ResNet / FTTransformer / TabTransformer return NaN for that row (same root cause as C12's "
     "known finding inf-cell-non-finite-output) and is NOT generated here",
+    "every stype-encoder class the repository offers for numerical columns (LinearEncoder, StackEncoder, "
+    "LinearBucketEncoder, LinearPeriodicEncoder, ExcelFormerEncoder; EmbeddingEncoder for categorical; discovered "
+    "live, sanity() fails when one is never drawn) is used with every model that takes an encoder dictionary, at 0 "
+    "training steps too, with NA strategies None/mean/zeros/most_frequent, and the models' other constructor "
+    "arguments are drawn away from their defaults.  In the Coq theorems the whole feature encoder is the argument "
+    "Enc with the hypothesis acts_rowwise Enc enc_r: the individual encoder classes are covered BY OBSERVATION here "
+    "(per-cell models of the encoders belong to C13).  Not generated: LinearModelEncoder (wraps user models), and "
+    "ExcelFormer with StackEncoder (constant prediction: a finding, see report).  LinearBucketEncoder cases run in "
+    "float32 (it raises under a float64 default dtype), tolerance 2e-5 relative there",
+    "completeness trials re-draw parameters from the SAME state (fresh initialisation + the same training history), "
+    "never by adding noise: a column that cannot influence a freshly initialised model is reported",
     "only stypes a model uses are generated (numerical + categorical; ExcelFormer numerical only): the quantifier "
     "says '>= 2 columns per USED stype'; TabTransformer silently ignores columns of any other stype",
     "the Coq side runs with each case's own hyper-parameters (columns per stype, channels, layers, heads, "
@@ -66,26 +77,49 @@ SIZES = [1.0, 10.0, 100.0]
 
 
 # ------------------------------------------------------------------ generation
-def variants(model):
-    if model in ("MLP", "ResNet"):
-        return [{"norm": "layer_norm"}, {"norm": "batch_norm"}, {"norm": None, "enc": "na"},
-                {"norm": "batch_norm", "enc": "zeros"}, {"norm": "layer_norm", "enc": "periodic", "layers": 1}]
+# configurations the API accepts but that cannot work, reported as findings instead of being generated:
+# StackEncoder copies the value into every channel and ExcelFormerConv starts with LayerNorm over the channels, which
+# maps a constant vector to zero -- the model's prediction is then the same for every input
+DEGENERATE = {("ExcelFormer", "StackEncoder")}
+HISTORIES = [lambda rng: [], lambda rng: [rng.randint(1, 3)],
+             lambda rng: rng.pick([[rng.randint(1, 2), rng.randint(1, 2)], [1, 1, 1]])]
+
+
+def draw_opts(rng, model, num_enc):
+    """Every public constructor argument of the model, drawn (mostly away from the defaults); `num_enc` is the
+    stype-encoder class used for numerical columns (None = the model's own default dictionary)."""
+    o = {"channels": rng.pick([4, 8, 16]), "layers": rng.randint(1, 3), "dropout": rng.pick([0.0, 0.1, 0.3])}
     if model == "FTTransformer":
-        return [{}, {"enc": "na"}, {"enc": "zeros", "layers": 1}]
+        o["channels"] = rng.pick([8, 16, 24])      # FTTransformer fixes nhead = 8
+    if model != "TabTransformer":
+        o["num_enc"] = num_enc
+        if num_enc is not None:
+            o["cat_enc"] = "EmbeddingEncoder"
+            o["num_na"] = rng.pick(P.NUM_NA)
+            o["cat_na"] = rng.pick(P.CAT_NA)
+    if model in ("MLP", "ResNet"):
+        o["norm"] = rng.pick(["layer_norm", "batch_norm", None])
     if model == "TabTransformer":
-        return [{"stypes": "both"}, {"stypes": "cat", "heads": 1}, {"stypes": "num"}, {"stypes": "both", "layers": 1}]
+        o["heads"] = rng.pick([1, 2, 4])
+        o["pad"] = rng.pick([1, 2, 3])
+        o["attn_dropout"] = rng.pick([0.0, 0.2])
     if model == "Trompt":
-        return [{}, {"enc": "default", "prompts": 4}, {"enc": "na", "layers": 3}, {"enc": "stack", "layers": 1}]
+        o["prompts"] = rng.pick([2, 4, 6])
     if model == "TabNet":
-        return [{}, {"shared": 0, "dep": 1}, {"shared": 2, "dep": 0, "cat_emb": 3}, {"enc": "stack", "layers": 1}]
+        o["attn_channels"] = rng.pick([4, 8, 12])
+        o["gamma"] = rng.pick([1.0, 1.2, 1.5])
+        o["shared"], o["dep"] = rng.pick([(2, 2), (0, 1), (2, 0), (1, 3)])
+        o["cat_emb"] = rng.randint(1, 3)
     if model == "ExcelFormer":
-        return [{"heads": 2}, {"heads": 1}, {"heads": 4, "layers": 1}]
-    raise ValueError(model)
+        o["heads"] = rng.pick([1, 2, 4])
+        o["aium_dropout"] = rng.pick([0.0, 0.2])
+        o["residual_dropout"] = rng.pick([0.0, 0.2])
+    return o
 
 
-def gen_case(rng, model, opts, task, big=False):
+def gen_case(rng, model, opts, task, big=False, history=None):
     opts = dict(opts)
-    n = rng.randint(3, 6) if not big else rng.randint(3, 6)
+    n = rng.randint(3, 6)
     st = opts.get("stypes", "both")
     if model == "ExcelFormer" or st == "num":
         n_num, n_cat = rng.randint(2, 4), 0
@@ -106,9 +140,11 @@ def gen_case(rng, model, opts, task, big=False):
     idxs.append(sorted(rng.sample(rows, rng.randint(1, n - 1))))      # a subset
     # parameter-state history on ONE model object: eval-score, then for each entry train that many SGD steps,
     # model.eval(), score again (an inference-time cache that survives training shows up only this way)
-    history = rng.wpick([(2, []), (3, [rng.randint(1, 3)]), (3, [rng.randint(1, 2), rng.randint(1, 2)]), (2, [1, 1, 1])])
+    if history is None:
+        history = rng.pick(HISTORIES)(rng)
+    dtype = "float32" if (opts.get("num_enc") in P.F32_ONLY or rng.chance(0.15)) else "float64"
     case = {"model": model, "opts": opts, "task": task, "data": data, "history": history, "steps": sum(history),
-            "seed": rng.randrange(1 << 30), "idxs": idxs, "kind": "small"}
+            "seed": rng.randrange(1 << 30), "idxs": idxs, "kind": "small", "dtype": dtype}
     if big:
         # a batch larger than the 512-row ghost batch: the frame's rows repeated
         m = 512 + rng.randint(1, 40)
@@ -119,20 +155,37 @@ def gen_case(rng, model, opts, task, big=False):
 
 
 def generate(rng, tier):
+    """Per repetition: every model x every stype-encoder class the repository offers for numerical columns (plus the
+    model's own default dictionary), the other constructor arguments drawn; repetition r uses the r-th history
+    shape, so every (model, encoder class) is also scored at 0 training steps."""
+    from torch_frame import stype as _st
     cases = []
     tasks = ["regression", "binary", "multiclass"]
-    reps = 3 if tier == "quick" else 20
+    reps = 3 if tier == "quick" else 18
+    num_classes = [c for c in P.encoder_classes(_st.numerical) if c in P.ENC_CTORS]
     k = 0
-    for _ in range(reps):
+    for rep in range(reps):
+        hist = HISTORIES[rep % 3]
         for model in P.MODELS:
-            for opts in variants(model):
-                cases.append(gen_case(rng, model, opts, tasks[k % 3]))
+            if model == "TabTransformer":
+                for stypes in ("both", "cat", "num"):
+                    cases.append(gen_case(rng, model, dict(draw_opts(rng, model, None), stypes=stypes), tasks[k % 3],
+                                          history=hist(rng)))
+                    k += 1
+                continue
+            encs = num_classes + [None]
+            for enc in encs:
+                if (model, enc) in DEGENERATE:
+                    continue
+                cases.append(gen_case(rng, model, draw_opts(rng, model, enc), tasks[k % 3], history=hist(rng)))
                 k += 1
         # batches larger than the ghost batch size: TabNet (and one other model as a control)
-        for opts in ([{}, {"shared": 0, "dep": 1}] if tier == "quick" else variants("TabNet")):
-            cases.append(gen_case(rng, "TabNet", opts, tasks[k % 3], big=True))
+        for _ in range(2):
+            cases.append(gen_case(rng, "TabNet", draw_opts(rng, "TabNet", rng.pick(num_classes + [None])), tasks[k % 3],
+                                  big=True, history=hist(rng)))
             k += 1
-        cases.append(gen_case(rng, "MLP", {"norm": "batch_norm"}, tasks[k % 3], big=True))
+        cases.append(gen_case(rng, "MLP", dict(draw_opts(rng, "MLP", None), norm="batch_norm"), tasks[k % 3], big=True,
+                              history=hist(rng)))
     return cases
 
 
@@ -143,7 +196,8 @@ def _prng(case, salt):
 
 def run(case):
     obs = {"ok": False}
-    with P.f64(case["seed"]):
+    obs["tol"] = P.tol_of(case.get("dtype"))
+    with P.f64(case["seed"], case.get("dtype", "float64")):
         try:
             ds = P.make_dataset(case["data"])
             tf0 = ds.tensor_frame
@@ -216,7 +270,7 @@ def expected_probe(case, pname, kinds, K):
     if pname == "transformer_in":
         return [[k // ch == c + 1 for k in range(K)] for c in range(ncols)]
     if case["model"] == "TabTransformer" and pname == "conv0_in":
-        return [[(c in cat) and k // ch == cat.index(c) and k % ch < ch - 2 for k in range(K)] for c in range(ncols)]
+        return [[(c in cat) and k // ch == cat.index(c) and k % ch < ch - case["opts"].get("pad", 2) for k in range(K)] for c in range(ncols)]
     if case["model"] == "TabTransformer" and pname == "decoder_in":
         return [[(k < len(cat) * ch) == (c in cat) for k in range(K)] for c in range(ncols)]
     if case["model"] == "ExcelFormer" and pname == "decoder_in":
@@ -286,7 +340,12 @@ def _probe(case, ds, tf0, model, outc):
             break
         trials += 1
         if t > 0:
-            P.redraw_params(model, t)
+            # re-draw the parameters FROM THE SAME STATE: a fresh initialisation followed by the same training
+            # history (no added noise: a column that cannot influence a freshly initialised model must show up)
+            P.reset_all(model)
+            for k_steps in case.get("history", []):
+                P.train_steps(model, tf0, k_steps)
+            model.eval()
             out, base = P.fwd_probes(mname, model, tf, has_cat)
         size = SIZES[t % 3]
         for r in (probe_rows if t == 0 else need_rows):
@@ -353,19 +412,19 @@ def oracle(case, obs):
                     f"rows {ch}", expected=[r], observed=ch)
     for ph in obs.get("hist", []):
         for rn in ph["runs"]:
-            if not (rn["diff"] <= (0.0 if rn.get("exact") else P.TOL)):
+            if not (rn["diff"] <= (0.0 if rn.get("exact") else obs.get("tol", P.TOL))):
                 if rn.get("exact"):
                     return dict(key=f"non-deterministic:{m}", what=f"{m}: two evaluation calls on the same batch differ "
                                 f"(after {ph['phase']} train/eval rounds)")
                 return dict(key=f"batch-dependent:{m}", what=f"{m}: after {ph['phase']} train->eval round(s) on the same "
                             f"model object (batch sizes scored so far {ph['sizes']}), {rn['what']} (size {rn['size']}) "
                             f"differs from the same rows in the full batch by {rn['diff']:.3g}",
-                            expected=f"<= {P.TOL}", observed=rn["diff"], phase=ph["phase"])
+                            expected=f"<= {obs.get('tol', P.TOL)}", observed=rn["diff"], phase=ph["phase"])
     for mt in obs["meta"]:
-        if not (mt["diff"] <= P.TOL):
+        if not (mt["diff"] <= obs.get("tol", P.TOL)):
             what = mt.get("what", f"index list of {mt.get('idx_len')} rows")
             return dict(key=f"batch-dependent:{m}", what=f"{m}: model(tf[idx]) differs from model(tf)[idx] by "
-                        f"{mt['diff']:.3g} ({what})", expected=f"<= {P.TOL}", observed=mt["diff"])
+                        f"{mt['diff']:.3g} ({what})", expected=f"<= {obs.get('tol', P.TOL)}", observed=mt["diff"])
     for r, ch in obs["rows"]:
         if r not in ch:
             return dict(key=f"row-dead:{m}", what=f"{m}: no change of row {r}'s features changed its prediction in "
@@ -417,6 +476,17 @@ def stats(cases, obss):
         d.setdefault("histories", {})
         hk = str(c.get("history", []))
         d["histories"][hk] = d["histories"].get(hk, 0) + 1
+        o_ = c["opts"]
+        for key in ("num_enc", "num_na", "cat_na", "norm", "channels", "layers", "dropout", "heads", "pad", "prompts",
+                    "attn_channels", "gamma", "shared", "cat_emb", "attn_dropout", "aium_dropout", "residual_dropout"):
+            if key in o_:
+                dd = d.setdefault("arg:" + key, {})
+                dd[str(o_[key])] = dd.get(str(o_[key]), 0) + 1
+        if not c.get("history") and "num_enc" in o_:
+            dd = d.setdefault("zero_step_encoders", {})
+            dd[f"{c['model']}/{o_['num_enc']}"] = dd.get(f"{c['model']}/{o_['num_enc']}", 0) + 1
+        d.setdefault("dtypes", {})
+        d["dtypes"][c.get("dtype", "float64")] = d["dtypes"].get(c.get("dtype", "float64"), 0) + 1
         for k, v in (("models", c["model"]), ("tasks", c["task"]), ("steps", c["steps"]), ("kinds", c["kind"])):
             d[k][str(v)] = d[k].get(str(v), 0) + 1
         if not o.get("ok"):
@@ -445,13 +515,14 @@ def coq_model_term(case, obs, model=None):
     if m == "TabNet":
         has_cat = "categorical" in obs["col_kinds"]
         ce = opts.get("cat_emb", 2) if has_cat else 1
-        return f"p_tabnet {L} {cols} {ce} {ch} {opts.get('shared', 2)} {opts.get('dep', 2)} 512 {out} {X}"
+        return (f"p_tabnet {L} {cols} {ce} {ch} {opts.get('attn_channels', ch)} {opts.get('shared', 2)} "
+                f"{opts.get('dep', 2)} 512 {out} {X}")
     if m == "FTTransformer":
         return f"p_ft {cols} {ch} {out} {X}"
     if m == "TabTransformer":
         cat = [j for j, k in enumerate(obs["col_kinds"]) if k == "categorical"]
         num = [j for j, k in enumerate(obs["col_kinds"]) if k == "numerical"]
-        return f"p_tabt {L} {opts.get('heads', 2)} {cols} {ch} 2 {out} {P.cnats(cat)} {P.cnats(num)} {X}"
+        return f"p_tabt {L} {opts.get('heads', 2)} {cols} {ch} {opts.get('pad', 2)} {out} {P.cnats(cat)} {P.cnats(num)} {X}"
     if m == "Trompt":
         return f"p_trompt {L} {cols} {ch} {opts.get('prompts', 2)} {out} {X}"
     if m == "ExcelFormer":
@@ -538,7 +609,7 @@ def selftest_discrimination(rng):
     for m in P.MODELS:
         opts = {"stypes": "num"} if m == "TabTransformer" else {}
         case = {"model": m, "opts": opts, "task": "regression", "data": data, "history": [1], "steps": 1,
-                "seed": rng.randrange(1 << 30), "idxs": [[0]], "kind": "small"}
+                "seed": rng.randrange(1 << 30), "idxs": [[0]], "kind": "small", "dtype": "float64"}
         cases.append(case)
         obss.append(run(case))
     terms, meaning = [], []
@@ -588,6 +659,32 @@ def sanity(cases, obss):
         probs.append("fewer than half of the cases have a train/eval history")
     if not any(len(json.loads(k)) >= 2 for k in d.get("histories", {})):
         probs.append("no history with two or more eval->train->eval rounds")
+    # every stype-encoder class the repository offers for numerical / categorical columns is drawn, and scored at
+    # 0 training steps with every model that takes an encoder dictionary; constructor arguments leave their defaults
+    from torch_frame import stype as _st
+    drawn = d.get("arg:num_enc", {})
+    for cls in P.encoder_classes(_st.numerical) + P.encoder_classes(_st.categorical):
+        if cls in P.ENC_EXCLUDED:
+            continue
+        if cls not in P.ENC_CTORS:
+            probs.append(f"stype encoder class {cls} of the repository is unknown to the generator")
+        elif cls != "EmbeddingEncoder" and drawn.get(cls, 0) == 0:
+            probs.append(f"stype encoder class {cls} never drawn")
+    for m in P.MODELS:
+        if m == "TabTransformer":
+            continue
+        for cls in drawn:
+            if cls != "None" and (m, cls) not in DEGENERATE and d.get("zero_step_encoders", {}).get(f"{m}/{cls}", 0) == 0:
+                probs.append(f"{m} with {cls} never scored at 0 training steps")
+    defaults = {"norm": "layer_norm", "channels": None, "layers": None, "dropout": "0.2", "heads": None, "pad": None,
+                "prompts": None, "attn_channels": None, "gamma": "1.2", "shared": "2", "cat_emb": "2",
+                "num_na": "None", "cat_na": "None"}
+    for key, dflt in defaults.items():
+        vals = d.get("arg:" + key, {})
+        if len(vals) < 2 or (dflt is not None and set(vals) <= {dflt}):
+            probs.append(f"constructor argument {key} takes fewer than two values / only its default")
+    if d.get("dtypes", {}).get("float32", 0) == 0 or d.get("dtypes", {}).get("float64", 0) == 0:
+        probs.append("float32 or float64 never used")
     measured = {}
     for c, o in zip(cases, obss):
         if c is None or not o.get("ok"):
